@@ -15,6 +15,8 @@ import IocProofs.Lemmas.SemOrder
 import IocProofs.Lemmas.SemConfigure
 import IocProofs.Lemmas.SemInit
 import IocProofs.Lemmas.SemDelegate
+import IocProofs.Lemmas.OrderSupply
+import IocProofs.Lemmas.SemSupply
 namespace Ioc.C12
 open Ioc Ioc.Order
 
@@ -332,6 +334,71 @@ theorem C12_early_contract (hs : SortSpec part sort) (isSmart : α → Bool) (pr
     ((sortOrdered sort part procs).filter isSmart).Perm (procs.filter isSmart) :=
   ⟨(sortOrdered_pairwise hs procs).filter _, (sortOrdered_perm hs procs).filter _⟩
 
+/-! ### components supplied before instantiation: the short-circuit of createComponent -/
+
+/-- PostProcessBeforeInstantiation: the InstantiationAware processors are asked in processor order, each at most once,
+    up to and including the first one that answers (an error or a component); the chain's answer is that processor's
+    answer, and nil when nobody answers. -/
+theorem C12_before_instantiation_in_order {β : Type} (isInst : α → Bool) (bi : α → Res β) (procs : List α) :
+    (applyBeforeInstantiation isInst bi procs []).1 =
+      takeUntil (fun p => (bi p).answers) (procs.filter isInst) ∧
+    (applyBeforeInstantiation isInst bi procs []).2 =
+      (match (procs.filter isInst).find? (fun p => (bi p).answers) with
+       | none => .nil
+       | some p => bi p) :=
+  ⟨by rw [applyBeforeInstantiation_log]; simp, applyBeforeInstantiation_res isInst bi procs []⟩
+
+/-- A component some processor supplies from PostProcessBeforeInstantiation gets the after-initialization chain over the
+    supplied instance and NOTHING else: no after-instantiation callback, no before-initialization round — so every
+    processor's after-initialization callback fires at most once for it, in processor order (a prefix ending at the first
+    failing or nil-answering processor), and exactly once when every callback returns a component. -/
+theorem C12_supplied_component_after_chain_only {β : Type} (isInst : α → Bool) (bi : α → Res β) (instRes : α → Step)
+    (before after : α → β → Res β) (initFails : β → Bool) (procs : List α) (raw c : β)
+    (h : (applyBeforeInstantiation isInst bi procs []).2 = .val c) :
+    let r := createComponent true isInst bi instRes before after initFails procs raw
+    r.1.inst = [] ∧ r.1.before = [] ∧
+    r.1.after = (applyAfter after procs c []).1 ∧ r.1.after <+: procs ∧ r.2 = (applyAfter after procs c []).2 ∧
+    ((∀ p b, ∃ c', after p b = .val c') → r.1.after = procs ∧ r.2.isSome = true) := by
+  intro r
+  have hr : r = _ := createComponent_supplied isInst bi instRes before after initFails procs raw c h
+  obtain ⟨p1, p2⟩ := applyAfter_log_prefix after procs c
+  rw [hr]
+  exact ⟨rfl, rfl, rfl, p1, rfl, p2⟩
+
+/-- A component nobody supplies (every InstantiationAware processor answers nil) is created the ordinary way: after all
+    InstantiationAware processors were asked, the rounds of `C12_inst_processors_in_order` and
+    `C12_processors_invoked_in_order`. -/
+theorem C12_unsupplied_component_regular_creation {β : Type} (isInst : α → Bool) (bi : α → Res β) (instRes : α → Step)
+    (before after : α → β → Res β) (initFails : β → Bool) (procs : List α) (raw : β)
+    (h : ∀ p, (bi p).answers = false) (hi : (resolveAfterInstantiation isInst instRes procs).2 = false) :
+    createComponent true isInst bi instRes before after initFails procs raw =
+      ({ binst := procs.filter isInst, inst := (resolveAfterInstantiation isInst instRes procs).1,
+         before := (initializeComponent before after initFails procs raw).1,
+         after := (initializeComponent before after initFails procs raw).2.1 },
+       (initializeComponent before after initFails procs raw).2.2) := by
+  have ha := applyBeforeInstantiation_all isInst bi procs h
+  rw [createComponent_regular true isInst bi instRes before after initFails procs raw (Or.inr (by rw [ha]))]
+  simp [ha, hi]
+
+/-- A whole start with several watched components and processors that may supply instances: each component is created at
+    most once, and for EVERY created component each of the four callback logs is a prefix of the sorted processor sequence
+    (of its InstantiationAware part for the two instantiation callbacks) — every participant at most once per component,
+    in contract order (`C12_contract`), whichever component is supplied by whom. -/
+theorem C12_components_invoked_in_order {β γ : Type} (hs : SortSpec part sort)
+    (loadRes : α → Step) (hasInst : Bool) (isInst : α → Bool) (bi : γ → α → Res β) (instRes : α → Step)
+    (before after : α → β → Res β) (runFails : α → Bool) (raw : γ → β) (cs : List γ)
+    (loaders procs runners : List α) :
+    let g := startB sort part loadRes (fun x => some x) hasInst isInst bi instRes before after runFails raw cs loaders procs runners
+    firsts g.loads <+: sortOrdered sort part loaders ∧
+    g.comps.length ≤ cs.length ∧
+    (∀ r ∈ g.comps,
+      r.1.binst <+: (sortOrdered sort part procs).filter isInst ∧
+      firsts r.1.inst <+: (sortOrdered sort part procs).filter isInst ∧
+      r.1.before <+: sortOrdered sort part procs ∧
+      r.1.after <+: sortOrdered sort part procs) ∧
+    g.runs <+: sortOrdered sort part runners :=
+  startB_in_order hs loadRes hasInst isInst bi instRes before after runFails raw cs loaders procs runners
+
 /-! ### every Initialize of a Configure, whatever was called on it before -/
 
 /-- The entry points of `configure` have the shape the model mirrors: Initialize guards and calls loadConfigure,
@@ -433,6 +500,21 @@ example :
     g.err = false ∧ g.before.map (·.id) = [1, 0, 2] ∧ (firsts g.inst).map (·.id) = [0, 2] ∧
       g.runs.map (·.id) = [1, 0] ∧ (seconds g.loads).map (·.id) = [1, 0] := by decide
 
+/-- two watched components, processor 1 (ordered, InstantiationAware) supplies the first one: its log is the
+    after-initialization chain only, the second component passes all four rounds; sorted chain = [2, 1, 0] -/
+example :
+    let g := startB (fun lt l => isort lt l) Participant.part (fun _ => .skip) (fun x => some x) true
+      (fun p => p.id != 0) (fun (c : Nat) p => if c == 0 && p.id == 1 then .val 100 else .nil) (fun _ => .skip)
+      (fun _ b => .val b) (fun p b => if p.id == 0 then .val (b + 1) else .val b) (fun _ => false) (fun c => c) [0, 1]
+      [] [⟨.plain, 0⟩, ⟨.ord 3, 1⟩, ⟨.prio 2, 2⟩] [⟨.ord 1, 0⟩]
+    g.err = false ∧
+    g.comps.map (fun r => (r.1.binst.map (·.id), (firsts r.1.inst).map (·.id), r.1.before.map (·.id), r.1.after.map (·.id), r.2)) =
+      [([2, 1], [], [], [2, 1, 0], some 101), ([2, 1], [2, 1], [2, 1, 0], [2, 1, 0], some 2)] := by decide
+
+/-- the hypothesis of C12_supplied_component_after_chain_only holds for a non-trivial chain -/
+example : (applyBeforeInstantiation (fun p => p != 2) (fun p => if p == 3 then Res.val 8 else .nil) [1, 2, 3, 4] []).2 = .val 8 := by
+  rfl
+
 /-! ### the tie to the code: SortOrderedComponents and its comparator ARE the regenerated programs
 
 `Ioc.Progs.sortOrderedComponents` / `Ioc.Progs.orderedComponentComparator` are the syntax trees of the two functions of
@@ -494,6 +576,25 @@ theorem C12_code_applyAfter (procs : List Nat) (before after : Nat → Nat → R
       some (Sem.encAfter (Sem.afterLoop after procs c).2, w ++ Sem.aevs (Sem.afterLoop after procs c).1) ∧
     applyAfter after procs c [] = ((Sem.afterLoop after procs c).1, (Sem.afterLoop after procs c).2) :=
   ⟨Sem.applyAfter_sem procs before after im c w, by rw [Sem.applyAfter_eq]; simp⟩
+
+/-- the short-circuit creation path, regenerated (delegate:178-211): applyPostProcessBeforeInstantiation asks the
+    InstantiationAware processors in the order of `componentPostProcessors` until one fails or hands out a component —
+    `Order.applyBeforeInstantiation` (`Sem.abiLoop_eq`) -/
+theorem C12_code_applyBeforeInstantiation (procs : List Nat) (isInst : Nat → Bool) (bi : Nat → Res Nat) (w : List Nat) :
+    Go.run (Sem.abiPrims procs isInst bi) Progs.del_applyBeforeInstantiation [.str "meta", .str "n"] w =
+      some (Sem.encRes (applyBeforeInstantiation isInst bi procs []).2, w ++ (applyBeforeInstantiation isInst bi procs []).1) := by
+  rw [Sem.applyBeforeInstantiation_sem, Sem.abiLoop_eq]; simp
+
+/-- …and ResolveBeforeInstantiation hands a component supplied that way to applyPostProcessAfterInitialization
+    (`C12_code_applyAfter`) and returns ITS answer (the instance the factory then uses, factory.go:170-181), nothing
+    without an InstantiationAware processor — `Order.resolveBeforeInstantiation` -/
+theorem C12_code_ResolveBeforeInstantiation (hasInst : Bool) (isInst : Nat → Bool) (bi : Nat → Res Nat)
+    (after : Nat → Nat → Res Nat) (procs : List Nat) :
+    Go.run (Sem.rbiPrims hasInst (applyBeforeInstantiation isInst bi procs []).2 (fun c => (applyAfter after procs c []).2))
+        Progs.del_ResolveBeforeInstantiation [.str "meta", .str "n"] [] =
+      some (Sem.encRes (resolveBeforeInstantiation hasInst isInst bi after procs).2.2,
+            (Sem.rbiModel hasInst (applyBeforeInstantiation isInst bi procs []).2 (fun c => (applyAfter after procs c []).2)).2) := by
+  rw [Sem.resolveBeforeInstantiation_sem, Sem.rbiModel_eq]
 
 /-- ResolveAfterInstantiation, regenerated (delegate:213-231): the InstantiationAware processors are called in the order of
     `componentPostProcessors`; PostProcessProperties only follows a `true` answer, the first error of either call ends the
